@@ -84,7 +84,7 @@ func init() {
 			i := fr.i
 			v := i.nondetInt(argString(a[0]), types.Int64).(sym)
 			c := i.ex.Ctx
-			const hi = int64(7258118400) * 1e9 // 2200-01-01
+			const hi = int64(1) << 62 // 2116-02-20: instant + duration (< 2^61) cannot overflow int64 nanoseconds
 			if i.ex.IntMode {
 				i.ex.assume(c.And(c.IntCmp("<=", c.IntC(0), v.t), c.IntCmp("<=", v.t, c.IntC(hi))))
 			} else {
@@ -143,6 +143,17 @@ func init() {
 			}
 			c := i.ex.Ctx
 			return i.mkSym(c.Or(c.FPCmp("fp.eq", x, y), c.And(c.FPIsNaN(x), c.FPIsNaN(y))), types.Bool)
+		},
+		"verif_uf_f64": func(fr *frame, a []value) value {
+			i := fr.i
+			if !isSym(a[1]) {
+				if argString(a[0]) == "seconds" {
+					d := a[1].(int64)
+					return float64(d/1e9) + float64(d%1e9)/1e9
+				}
+				unsupported("verif_uf_f64(%s) of a concrete value", argString(a[0]))
+			}
+			return i.mkSym(i.ex.Ctx.App("uf_"+sanitize(argString(a[0])), smt.FP64, i.term(a[1])), types.Float64)
 		},
 		"verif_thorough": func(fr *frame, a []value) value { return fr.i.ex.Tier == "thorough" },
 		"verif_param": func(fr *frame, a []value) value {
